@@ -90,6 +90,7 @@ int verif_fs_exists(const char *name) { FILE *f = fopen(name, "rb"); if (f) { fc
 long verif_fs_size(const char *name) { FILE *f = fopen(name, "rb"); if (!f) return 0; fseek(f, 0, SEEK_END); long n = ftell(f); fclose(f); return n; }
 void verif_fs_put(const char *name, const char *data, long n) { FILE *f = fopen(name, "wb"); if (f) { fwrite(data, 1, n, f); fclose(f); } }
 void verif_fs_truncate(const char *name, long n) { if (truncate(name, n)) {} }
+int verif_fs_complete(const char *name) { return verif_fs_exists(name); }
 void verif_fs_fail(const char *op, int times) { }
 void verif_fs_trace_begin(void) { }
 int verif_fs_crash_consistent(const char *name, const char *backup) { return 0; }   // crash points are examined on the interpreter's operation trace only
